@@ -309,11 +309,53 @@ structure Recipe where
   srcs : List (Option Nat × Int)
   deriving Inhabited, Repr
 
+/-- a GP load / store with a base register and a displacement: which value read is the base / the stored value -/
+structure MemRecipe where
+  isLoad : Bool
+  size : Nat
+  baseIdx : Nat
+  disp : Int
+  valIdx : Option Nat := none
+  valImm : Int := 0
+  deriving Inhabited, Repr
+
 structure Prog2 where
   insts : Array Inst := #[]
   tags : Array Nat := #[]
   recipes : List (String × Recipe) := []
+  memRecipes : List (String × MemRecipe) := []
+  flagRecipes : List (String × Recipe × Nat) := []     -- AArch64 flag setters: recipe of the operation + index of the NZCV write
   deriving Inhabited
+
+/-- AArch64: query_rw_info reports no PSTATE access ("TODO" in a64instapi.cpp); the validator's own table of NZCV writers / readers
+    (one location for the four flags) -/
+def a64FlagWriters : List String := ["cmp", "cmn", "tst", "adds", "subs", "ands", "bics", "negs", "adcs", "sbcs", "ccmp", "ccmn", "fcmp", "fcmpe"]
+def a64FlagReaders : List String := ["csel", "csinc", "csinv", "csneg", "cset", "csetm", "cinc", "cinv", "cneg", "ccmp", "ccmn", "adc", "adcs", "sbc",
+  "sbcs", "ngc", "ngcs", "fcsel", "fccmp", "fccmpe"]
+def a64Flags (name : String) : Nat × Nat :=
+  let base := (name.splitOn ".").headD name
+  ((if a64FlagReaders.contains base || (base == "b" && name != "b") then 1 else 0), (if a64FlagWriters.contains base then 1 else 0))
+
+def mkMemRecipe (x86 : Bool) (name : String) (ops : List Opd) (nReads : Nat) : Option MemRecipe :=
+  let okBase (b : String) : Bool := b.startsWith "v"
+  match ops with
+  | [.reg _ _ sz fl _ wm em _ _, .mem msz _ b ix d mfl] =>
+    if ix != "-" || !okBase b || (sz != 4 && sz != 8) || mfl &&& 0x2000 != 0 then none
+    else if ((x86 && name == "mov" && msz == sz) || (!x86 && name == "ldr")) && fl &&& 3 == 2 && mfl &&& 3 == 1 && nReads == 1
+         && (byteMask 8 &&& ((wm ||| em) ^^^ (2 ^ 64 - 1))) == 0 then
+      some { isLoad := true, size := sz, baseIdx := 0, disp := d }
+    else if !x86 && name == "str" && fl &&& 3 == 1 && mfl &&& 3 == 2 && nReads == 2 then
+      some { isLoad := false, size := sz, baseIdx := 1, disp := d, valIdx := some 0 }
+    else none
+  | [.mem msz _ b ix d mfl, .reg _ _ sz fl ..] =>
+    if x86 && name == "mov" && ix == "-" && okBase b && (sz == 4 || sz == 8) && msz == sz && fl &&& 3 == 1 && mfl &&& 3 == 2 && nReads == 2 then
+      some { isLoad := false, size := sz, baseIdx := 0, disp := d, valIdx := some 1 }
+    else none
+  | [.mem msz _ b ix d mfl, .imm v] =>
+    if x86 && name == "mov" && ix == "-" && okBase b && (msz == 4 || msz == 8) && mfl &&& 3 == 2 && nReads == 1 then
+      some { isLoad := false, size := msz, baseIdx := 0, disp := d, valImm := v.toInt?.getD 0 }
+    else none
+  | _ => none
 
 def concreteNames : List String :=
   ["mov", "add", "sub", "and", "or", "xor", "imul", "shl", "shr", "orr", "eor", "mul", "lsl", "lsr", "madd", "neg", "not", "mvn", "inc", "dec",
@@ -518,12 +560,34 @@ def translate (c : Ctx) (post : Bool) (nodes : Array Node) (twinOf : Nat → Opt
             | none => []
           else []
         | _ => []
-      let reads := t.reads ++ flagLocs n.rfl
-      let writes := t.writes ++ flagLocs n.wfl
+      let (rflA, wflA) := if !c.x86 && n.rfl == 0 && n.wfl == 0 then a64Flags n.name else (n.rfl, n.wfl)
+      let reads := t.reads ++ flagLocs rflA
+      let writes := t.writes ++ flagLocs wflA
       let key := keyStr name n (t.key ++ consKey)
       if !post && n.cf == 0 && n.extra == "-" && !t.mem && t.writes.length == 1 && !(t.key.any fun k => k == "zero" || k == "keep" || k == "ones" || k == "same") then
         if let some r := mkRecipe n.name n.ops t.reads.length then
           if (out.recipes.lookup key).isNone then out := { out with recipes := (key, r) :: out.recipes }
+      if !post && n.cf == 0 && n.extra == "-" && t.mem && !(t.key.any fun k => k.startsWith "stk") then
+        if let some r := mkMemRecipe c.x86 n.name n.ops t.reads.length then
+          if (out.memRecipes.lookup key).isNone then out := { out with memRecipes := (key, r) :: out.memRecipes }
+      if !post && !c.x86 && n.cf == 0 && wflA != 0 && !t.mem then
+        -- AArch64 flag setter: cmp/cmn/tst (no register written) or adds/subs/ands (one register written)
+        let base := match n.name with | "cmp" | "subs" => "sub" | "cmn" | "adds" => "add" | "tst" | "ands" => "and" | _ => ""
+        let ops' : List Opd := if ["cmp", "cmn", "tst"].contains n.name then n.ops else n.ops
+        if base != "" then
+          let fr : Option Recipe :=
+            if t.writes.length == 1 then (mkRecipe base ops' t.reads.length)
+            else match ops' with
+              | [.reg _ _ sz fl .., b] =>
+                if (sz == 4 || sz == 8) && fl &&& 3 == 1 then
+                  match b with
+                  | .reg _ _ sz2 fl2 .. => if sz2 == sz && fl2 &&& 3 == 1 && t.reads.length == 2 then some { name := base, size := sz, srcs := [(some 0, 0), (some 1, 0)] } else none
+                  | .imm v => if t.reads.length == 1 then some { name := base, size := sz, srcs := [(some 0, 0), (none, v.toInt?.getD 0)] } else none
+                  | _ => none
+                else none
+              | _ => none
+          if let some r := fr then
+            if (out.flagRecipes.lookup key).isNone then out := { out with flagRecipes := (key, r, t.writes.length) :: out.flagRecipes }
       let lastLabel : Option Nat := match n.ops.getLast? with | some (.label id) => some id | _ => none
       if n.cf == 4 then
         if post then inst := .ret retLocs else throw "unsupported: ret instruction in the virtual program"
@@ -862,23 +926,95 @@ def evalRecipe (r : Recipe) (ins : List Nat) : Nat :=
    | "dec" => a + m - 1
    | _ => 0) % m
 
-def mkInterp (recipes : List (String × Recipe)) : Interp Nat where
-  eval key ins i :=
-    if key.startsWith "const " then (key.drop 6).toString.toNat?.getD 0
-    else match (if i == 0 then recipes.lookup key else none) with
-      | some r => evalRecipe r ins
-      | none => hashList (hashMix (strHash key) i) ins
-  evalMem key ins := hashList (hashMix (strHash key) 7777) ins
-  junk key ins i := hashList (hashMix (strHash key) (100000 + i)) ins
-  cond key vals :=
+/-- values of the differential: numbers, and a byte-addressed memory (explicit cells over a pseudo-random background) -/
+inductive DV where
+  | n (v : Nat)
+  | m (cells : List (Nat × Nat)) (seed : Nat)
+  deriving Inhabited, BEq
+
+def DV.toN : DV → Nat
+  | .n v => v
+  | .m cells seed => cells.foldl (fun h c => hashMix (hashMix h c.1) c.2) (hashMix seed 31337)
+
+def memByte (cells : List (Nat × Nat)) (seed addr : Nat) : Nat :=
+  match cells.lookup addr with | some b => b | none => (hashMix seed addr) % 256
+
+def memLoad (mem : DV) (addr size : Nat) : Nat :=
+  match mem with
+  | .m cells seed => (List.range size).foldl (fun acc k => acc + (memByte cells seed (addr + k)) <<< (8 * k)) 0
+  | .n v => hashMix v addr % 2 ^ (8 * size)
+
+def memStore (mem : DV) (addr size val : Nat) : DV :=
+  match mem with
+  | .m cells seed => .m ((List.range size).foldl (fun cs k => (addr + k, (val >>> (8 * k)) % 256) :: cs.filter (·.1 != addr + k)) cells) seed
+  | .n v => .n (hashMix (hashMix v addr) val)
+
+/-- NZCV (packed N Z C V) of an AArch64 flag-setting add / sub / and -/
+def nzcv (r : Recipe) (ins : List Nat) : Nat :=
+  let m := 2 ^ (8 * r.size)
+  let v (x : Option Nat × Int) : Nat := match x.1 with | some k => (ins.getD k 0) % m | none => (x.2 % (m : Int)).toNat
+  let n := r.srcs.length
+  let a := if n == 2 then v (r.srcs.getD 0 (none, 0)) else v (r.srcs.getD 1 (none, 0))
+  let b := if n == 2 then v (r.srcs.getD 1 (none, 0)) else v (r.srcs.getD 2 (none, 0))
+  let msb (x : Nat) : Nat := (x >>> (8 * r.size - 1)) % 2
+  let (res, cF, vF) :=
+    match r.name with
+    | "sub" => let res := (a + m - b) % m; (res, (if a ≥ b then 1 else 0), msb ((a ^^^ b) &&& (a ^^^ res)))
+    | "add" => let res := (a + b) % m; (res, (if a + b ≥ m then 1 else 0), msb (((a ^^^ b) ^^^ (m - 1)) &&& (a ^^^ res)))
+    | _ => (a &&& b, 0, 0)
+  msb res * 8 + (if res == 0 then 4 else 0) + cF * 2 + vF
+
+def condA64 (cc : String) (f : Nat) : Option Bool :=
+  let nF := f / 8 % 2 == 1
+  let zF := f / 4 % 2 == 1
+  let cF := f / 2 % 2 == 1
+  let vF := f % 2 == 1
+  match cc with
+  | "eq" => some zF | "ne" => some (!zF) | "hs" => some cF | "lo" => some (!cF) | "mi" => some nF | "pl" => some (!nF)
+  | "vs" => some vF | "vc" => some (!vF) | "hi" => some (cF && !zF) | "ls" => some (!cF || zF) | "ge" => some (nF == vF)
+  | "lt" => some (nF != vF) | "gt" => some (!zF && nF == vF) | "le" => some (zF || nF != vF) | _ => none
+
+def mkInterp (pg : Prog2) : Interp DV where
+  eval key insD i :=
+    let ins := insD.map DV.toN
+    if key.startsWith "const " then .n ((key.drop 6).toString.toNat?.getD 0)
+    else match pg.memRecipes.lookup key with
+      | some mr =>
+        if mr.isLoad && i == 0 then
+          let addr := ((Int.ofNat (ins.getD mr.baseIdx 0) + mr.disp) % (2 ^ 64 : Int)).toNat
+          .n (memLoad (insD.getLast?.getD (.n 0)) addr mr.size)
+        else .n (hashList (hashMix (strHash key) i) ins)
+      | none =>
+        match pg.flagRecipes.lookup key with
+        | some (r, fi) => if i == fi then .n (nzcv r ins) else if i == 0 then .n (evalRecipe r ins) else .n (hashList (hashMix (strHash key) i) ins)
+        | none =>
+          match (if i == 0 then pg.recipes.lookup key else none) with
+          | some r => .n (evalRecipe r ins)
+          | none => .n (hashList (hashMix (strHash key) i) ins)
+  evalMem key insD :=
+    let ins := insD.map DV.toN
+    let mem := insD.getLast?.getD (.n 0)
+    match pg.memRecipes.lookup key with
+    | some mr =>
+      if mr.isLoad then mem
+      else
+        let addr := ((Int.ofNat (ins.getD mr.baseIdx 0) + mr.disp) % (2 ^ 64 : Int)).toNat
+        let val := match mr.valIdx with | some k => ins.getD k 0 | none => (mr.valImm % (2 ^ 64 : Int)).toNat
+        memStore mem addr mr.size val
+    | none => .m [] (hashList (hashMix (strHash key) 7777) ins)      -- anything else: a fresh memory determined by everything read
+  junk key insD i := .n (hashList (hashMix (strHash key) (100000 + i)) (insD.map DV.toN))
+  cond key valsD :=
+    let vals := valsD.map DV.toN
     let nm := keyName key
     let w32 := (key.splitOn " r5/4/").length > 1
     let v0 := if w32 then (vals.headD 0) % 2 ^ 32 else vals.headD 0
     if nm == "cbz" then v0 == 0 else if nm == "cbnz" then v0 != 0
-    else (hashList (strHash key) vals >>> 17) % 2 == 1
-  sel key vals :=
+    else match (if nm.startsWith "b." then condA64 (nm.drop 2).toString (vals.headD 0) else none) with
+      | some b => b
+      | none => (hashList (strHash key) vals >>> 17) % 2 == 1
+  sel key valsD :=
     let n := ((key.splitOn " jt").getLast?.bind String.toNat?).getD 1
-    (hashList (strHash key) vals >>> 11) % (max n 1)
+    (hashList (strHash key) (valsD.map DV.toN) >>> 11) % (max n 1)
 
 structure RunOut where
   events : List (String × List Nat) := []
@@ -886,19 +1022,22 @@ structure RunOut where
   hashed : List String := []
   steps : Nat := 0
 
-partial def runProg (I : Interp Nat) (recipes : List (String × Recipe)) (prog : Prog) (s : State Nat) (fuel : Nat) (acc : RunOut) : RunOut :=
+partial def runProg (I : Interp DV) (pg : Prog2) (prog : Prog) (s : State DV) (fuel : Nat) (acc : RunOut) : RunOut :=
   if fuel == 0 then acc else
   let acc := match prog[s.pc]? with
     | some (.op key _ ws _ mem ev) =>
-      let conc := key.startsWith "const " || (recipes.lookup key).isSome
+      let conc := key.startsWith "const " || (pg.recipes.lookup key).isSome || (pg.memRecipes.lookup key).isSome || (pg.flagRecipes.lookup key).isSome
+      let nm := keyName key ++ (if mem then "(mem)" else "")
+      if !conc && !ev && (mem || !ws.isEmpty) && !acc.hashed.contains nm && acc.hashed.length < 12 then { acc with hashed := acc.hashed ++ [nm] } else acc
+    | some (.jcc key ..) =>
       let nm := keyName key
-      if !conc && !ev && (mem || ws.any (· < flagBase)) && !acc.hashed.contains (nm ++ (if mem then "(mem)" else "")) && acc.hashed.length < 12 then { acc with hashed := acc.hashed ++ [nm ++ (if mem then "(mem)" else "")] } else acc
+      if nm != "cbz" && nm != "cbnz" && !nm.startsWith "b." && !acc.hashed.contains nm && acc.hashed.length < 12 then { acc with hashed := acc.hashed ++ [nm] } else acc
     | _ => acc
   match step I prog s with
   | .next s' ev =>
-    let acc := match ev with | some e => { acc with events := acc.events ++ [(e.key, e.args)] } | none => acc
-    runProg I recipes prog s' (fuel - 1) { acc with steps := acc.steps + 1 }
-  | .done vals m => { acc with outcome := s!"ret {vals.map Driver.toHex} mem={Driver.toHex m}" }
+    let acc := match ev with | some e => { acc with events := acc.events ++ [(e.key, e.args.map DV.toN)] } | none => acc
+    runProg I pg prog s' (fuel - 1) { acc with steps := acc.steps + 1 }
+  | .done vals m => { acc with outcome := s!"ret {vals.map (fun v => Driver.toHex v.toN)} mem={Driver.toHex m.toN}" }
   | .stuck => { acc with outcome := "stuck" }
 
 structure Prep where
@@ -966,17 +1105,17 @@ def oneLine (s : String) : String := String.ofList (s.toList.map fun ch => if ch
 
 /-- differential run of the two IR programs: `differ ...` with the first input on which the observations differ -/
 def differential (pr : Prep) (seed runs : Nat) : String :=
-  let I := mkInterp pr.pre.recipes
+  let I := mkInterp pr.pre
   let go := (List.range runs).findSome? fun r =>
     let h0 := hashMix (seed + 1) r
     let vals := (List.range pr.aP.length).map fun i =>
       let h := hashMix h0 i
       match h % 7 with | 0 => 0 | 1 => 1 | 2 => M64 - 1 | 3 => h % 65536 | 4 => 2 ^ 63 | _ => h
     let mem := hashMix h0 99
-    let sP : State Nat := { pc := 0, regs := assign (fun _ => 0xD0D0D0D0) pr.aP (fun i => vals.getD i 0), mem }
-    let sQ : State Nat := { pc := 0, regs := assign (fun l => hashMix 0xBADC0FFE l) pr.aQ (fun i => vals.getD i 0), mem }
-    let oP := runProg I pr.pre.recipes pr.pre.insts sP 300000 {}
-    let oQ := runProg I pr.pre.recipes pr.post.insts sQ 600000 {}
+    let sP : State DV := { pc := 0, regs := assign (fun _ => DV.n 0xD0D0D0D0) pr.aP (fun i => DV.n (vals.getD i 0)), mem := DV.m [] mem }
+    let sQ : State DV := { pc := 0, regs := assign (fun l => DV.n (hashMix 0xBADC0FFE l)) pr.aQ (fun i => DV.n (vals.getD i 0)), mem := DV.m [] mem }
+    let oP := runProg I pr.pre pr.pre.insts sP 300000 {}
+    let oQ := runProg I pr.pre pr.post.insts sQ 600000 {}
     if oP.outcome == "running" || oQ.outcome == "running" then none
     else if oP.outcome == oQ.outcome && oP.events == oQ.events then none
     else
@@ -984,7 +1123,12 @@ def differential (pr : Prep) (seed runs : Nat) : String :=
       some s!"differ input={vals.map Driver.toHex} mem={Driver.toHex mem} virtual: {oP.outcome} calls={oP.events.length} allocated: {oQ.outcome} calls={oQ.events.length} common_calls={nEv} steps={oP.steps}/{oQ.steps} uninterpreted={oP.hashed}"
   match go with
   | some m => oneLine m
-  | none => s!"same runs={runs}"
+  | none =>
+    -- what stayed uninterpreted on the first run (information only)
+    let vals := (List.range pr.aP.length).map fun i => hashMix (hashMix (seed + 1) 0) i
+    let sP : State DV := { pc := 0, regs := assign (fun _ => DV.n 0xD0D0D0D0) pr.aP (fun i => DV.n (vals.getD i 0)), mem := DV.m [] 1 }
+    let oP := runProg I pr.pre pr.pre.insts sP 300000 {}
+    s!"same runs={runs} uninterpreted={oP.hashed} outcome={oP.outcome.take 60}"
 
 def process (line : String) : String :=
   let ts0 := Driver.words line
